@@ -80,6 +80,11 @@ type (
 		offsets         wazevoapi.ModuleContextOffsetData
 		sharedFunctions *sharedFunctions
 		sourceMap       sourceMap
+
+		// refCount counts the CompileModule calls which returned this entry of engine.compiledModules and have not been
+		// matched by DeleteCompiledModule yet: modules with the same ID (same binary and settings) share one entry.
+		// Guarded by engine.mux.
+		refCount int
 	}
 
 	executables struct {
@@ -511,6 +516,10 @@ func (e *engine) DeleteCompiledModule(m *wasm.Module) {
 	defer e.mux.Unlock()
 	cm, ok := e.compiledModules[m.ID]
 	if ok {
+		// The entry is shared by every compilation of the same ID: it goes away with the last one.
+		if cm.refCount--; cm.refCount > 0 {
+			return
+		}
 		if len(cm.executable) > 0 {
 			e.deleteCompiledModuleFromSortedList(cm)
 		}
